@@ -70,6 +70,8 @@ def arr_case(symbol, nitems, argmaker):
         hooks = std_hooks(tok, {'self.get_argument': get_argument, 'XPathArray': new_array,
                                 ('len', 'XPathArray'): lambda ex, v: VInt(v.fields['_array'].len)})
         for k, v in argvals.items():
+            if k and isinstance(v, (VItem, VInt)) and symbol == 'remove':
+                hooks[f'self[{k}].evaluate'] = (lambda v: lambda ex, node, a, kw: v)(v)
             if k and isinstance(v, VItem):
                 hooks[f'self[{k}].evaluate'] = (lambda v: lambda ex, node, a, kw: v)(v)
         names = {'A': A, 'A0': A0}
@@ -118,6 +120,23 @@ CONTRACTS = [
                                 "result._array[j] == (A0[j] if j < position - 1 else (arg2 if j == position - 1 else A0[j - 1]))))"),
                  ('operand_unchanged', UNCHANGED),
              ], inline=INL),
+    Contract('array:head', 'C15', lambda: F31.evaluate__array_head, arr_case('head', 1, lambda S, ex: {}),
+             post=[('FOAY0001_iff_empty', "(raised_code == 'FOAY0001') == (len(A0) == 0)"),
+                   ('first_member', "not returned or result == A0[0]"), ('operand_unchanged', UNCHANGED),
+                   ('only_coded_errors', "returned or raised_code is not None")], inline=INL),
+    Contract('array:tail', 'C15', lambda: F31.evaluate__array_tail, arr_case('tail', 1, lambda S, ex: {}),
+             post=[('FOAY0001_iff_empty', "(raised_code == 'FOAY0001') == (len(A0) == 0)"),
+                   ('list_model', "not returned or (len(result._array) == len(A0) - 1 and forall_range(0, len(A0) - 1, lambda j: result._array[j] == A0[j + 1]))"),
+                   ('operand_unchanged', UNCHANGED)], inline=INL),
+    Contract('array:reverse', 'C15', lambda: F31.evaluate__array_reverse, arr_case('reverse', 1, lambda S, ex: {}),
+             post=[('list_model', "returned and len(result._array) == len(A0) and forall_range(0, len(A0), lambda j: result._array[j] == A0[len(A0) - 1 - j])"),
+                   ('operand_unchanged', UNCHANGED)], inline=INL),
+    Contract('array:get', 'C15', lambda: F31.evaluate__array_get, arr_case('get', 2, lambda S, ex: {1: S.int('position')}),
+             post=[('FOAY0001_iff_out_of_bounds', "(raised_code == 'FOAY0001') == (position < 1 or position > len(A0))"),
+                   ('member_at_position', "not returned or result == A0[position - 1]"), ('operand_unchanged', UNCHANGED),
+                   ('only_coded_errors', "returned or raised_code is not None")], inline=INL | {'XPathArray.__call__'}),
+    Contract('array:size', 'C15', lambda: F31.evaluate__array_size, arr_case('size', 1, lambda S, ex: {}),
+             post=[('is_length', "returned and result == len(A0)"), ('operand_unchanged', UNCHANGED)], inline=INL),
     Contract('array:append', 'C15', lambda: F31.evaluate__array_append,
              arr_case('append', 2, lambda S, ex: {1: S.item('member')}),
              post=[
